@@ -304,11 +304,15 @@ class FileSaver(strax.Saver):
         self.prefix = dirname_to_prefix(dirname)
         self.metadata_json = RUN_METADATA_PATTERN % self.prefix
 
-        if os.path.exists(dirname):
-            print(f"Removing data in {dirname} to overwrite")
-            shutil.rmtree(dirname)
         if os.path.exists(self.tempdirname):
             print(f"Removing old incomplete data in {self.tempdirname}")
+            shutil.rmtree(self.tempdirname)
+        if os.path.exists(dirname):
+            print(f"Removing data in {dirname} to overwrite")
+            # Move the directory out of the way atomically before deleting it:
+            # an interrupted rmtree must never leave a data directory without
+            # metadata behind (a leftover temp directory is harmless)
+            os.rename(dirname, self.tempdirname)
             shutil.rmtree(self.tempdirname)
         os.makedirs(self.tempdirname)
         self._flush_metadata()
